@@ -1211,6 +1211,12 @@ func (pc *PeerConnection) SetRemoteDescription(desc SessionDescription) error {
 		return err
 	}
 
+	// Reject a description that is invalid on its own before anything is
+	// applied: an error must leave the negotiation state as it was.
+	if err := pc.validateRemoteDescription(&desc, isRenegotiation); err != nil {
+		return err
+	}
+
 	if err := pc.setDescription(&desc, stateChangeOpSetRemote); err != nil {
 		return err
 	}
@@ -1404,6 +1410,60 @@ func (pc *PeerConnection) SetRemoteDescription(desc SessionDescription) error {
 			pc.startRTP(false, &desc, currentTransceivers)
 		}
 	})
+
+	return nil
+}
+
+// validateRemoteDescription performs the checks of SetRemoteDescription that
+// depend on the description alone (codecs and header extensions the media
+// engine can not parse, media sections without a mid, ICE credentials,
+// candidates, fingerprint) without applying anything. A description whose type
+// is not acceptable in the current signaling state is left to setDescription,
+// which reports the invalid transition.
+func (pc *PeerConnection) validateRemoteDescription(desc *SessionDescription, isRenegotiation bool) error {
+	var next SignalingState
+	switch desc.Type {
+	case SDPTypeOffer:
+		next = SignalingStateHaveRemoteOffer
+	case SDPTypeAnswer:
+		next = SignalingStateStable
+	case SDPTypePranswer:
+		next = SignalingStateHaveRemotePranswer
+	default:
+		return nil
+	}
+	if pc.isClosed.Load() || desc.parsed == nil {
+		return nil
+	}
+	if _, err := checkNextSignalingState(pc.SignalingState(), next, stateChangeOpSetRemote, desc.Type); err != nil {
+		return nil
+	}
+
+	if err := pc.api.mediaEngine.snapshot().updateFromRemoteDescription(*desc.parsed); err != nil {
+		return err
+	}
+
+	detectedPlanB := descriptionIsPlanB(desc, pc.log)
+	if pc.configuration.SDPSemantics != SDPSemanticsUnifiedPlan {
+		detectedPlanB = descriptionPossiblyPlanB(desc)
+	}
+	if desc.Type != SDPTypeAnswer && !detectedPlanB {
+		for _, media := range desc.parsed.MediaDescriptions {
+			if getMidValue(media) == "" {
+				return errPeerConnRemoteDescriptionWithoutMidValue
+			}
+		}
+	}
+
+	if _, err := extractICEDetails(desc.parsed, pc.log); err != nil {
+		return err
+	}
+
+	if !isRenegotiation {
+		if _, _, err := extractFingerprint(desc.parsed); err != nil {
+			return err
+		}
+	}
 
 	return nil
 }
